@@ -224,11 +224,12 @@ type c15Cache struct {
 	ts     int64
 }
 
-func (propC15) Run(scI interface{}) *Outcome {
+func (propC15) Run(scI interface{}) (o *Outcome) {
 	sc := scI.(*c15Sc)
-	o := &Outcome{Probes: map[string]int64{}}
-	w := simrt.Begin(simrt.Config{Seed: sc.WorldSeed, PoolPolicy: simrt.PoolLIFO, MapOrder: simrt.OrderSorted, ClockStart: 1_700_000_000e9, ClockStep: 0})
+	o = &Outcome{Probes: map[string]int64{}}
+	w := simrt.Begin(simrt.Config{Seed: sc.WorldSeed, PoolPolicy: simrt.PoolLIFO, MapOrder: simrt.OrderSorted, ClockStart: 1_700_000_000e9, ClockStep: 0, PreemptDen: 4})
 	defer simrt.End()
+	defer underScheduler(w, o)()
 	w.UseSimFS()
 	twig.SetDebugWriter(io.Discard)
 	saved := twig.VerifSwapGlobals(nil)
